@@ -54,7 +54,7 @@ def stepUnq (fl : Flavor) (atStart : Bool) (c : Char) : Option (Mode × List Out
   | .plain => some (.mid, [.lit c])
   | .blank => some (.start, [.brk])
   | .newline => none                           -- command separator
-  | .bslash => some (.esc, [.mark])
+  | .bslash => some (.esc, [])
   | .squote => some (.sq, [.mark])
   | .dquote => some (.dq, [.mark])
   | .expand => none
